@@ -1246,6 +1246,306 @@ Section HistProofs.
     - intros s. rewrite F1, Y1. apply A.
     - intros s. rewrite F2, Y2. apply B.
   Qed.
+
+  (* ------------------------------------------------------------------ one more pass on the SAME response
+     (memoryless modules): from a state reached by response(); [seeds | sensitivity() | reset()]* ; reset(),
+     seeds; sensitivity() -- WITHOUT a new response() -- gives what a freshly constructed network gives with
+     response(); seeds; sensitivity() on the same inputs *)
+  Lemma pass_ops_keep (mods : list hmodK) mid : forallb pass_op mid = true -> forall x,
+    s_st (run keep mods mid x) = s_st x /\ s_mem (run keep mods mid x) = s_mem x /\
+    s_fresh (run keep mods mid x) = s_fresh x.
+  Proof.
+    induction mid as [|o mid IH]; intros Hp x; [repeat split; reflexivity|].
+    simpl in Hp. apply andb_true_iff in Hp as [Ho Hp]. rewrite run_cons.
+    destruct (IH Hp (step keep mods x o)) as [A [B C]]. rewrite A, B, C.
+    destruct o; try discriminate; repeat split; reflexivity.
+  Qed.
+
+  Theorem pass_from_clean (mods : list hmodK) mem0 x' mid seeds :
+    hwf mods = true -> Forall h_shaped mods -> Forall h_memless mods -> length mem0 = length mods ->
+    inv mods x' -> forallb pass_op mid = true ->
+    admissible_run keep mods mid (step keep mods x' OResp) ->
+    let x := step keep mods (run keep mods mid (step keep mods x' OResp)) OReset in
+    seeds_shaped seeds ->
+    (forall s, s_st (run keep mods (pass_only seeds) x) s
+               = s_st (run keep mods (fresh_cycle seeds) (fresh dims keep mods mem0 (s_st x))) s) /\
+    ceq dims (s_se (run keep mods (pass_only seeds) x))
+             (s_se (run keep mods (fresh_cycle seeds) (fresh dims keep mods mem0 (s_st x)))).
+  Proof.
+    intros Hwf Hs Hm L0 Hi' Hp Hadm x Hsd.
+    set (xr := step keep mods x' OResp) in *.
+    assert (Hir : inv mods xr) by (apply inv_step; [exact Hwf | exact Hs | exact Hi' | exact I]).
+    assert (Him : inv mods (run keep mods mid xr)) by (apply inv_run; assumption).
+    assert (Hi : inv mods x) by (apply inv_step; [exact Hwf | exact Hs | exact Him | exact I]).
+    destruct (pass_ops_keep mods mid Hp xr) as [Kst [Kmem Kfr]].
+    assert (Xst : s_st x = s_st xr) by (unfold x; cbn [step s_st]; exact Kst).
+    assert (Xfr : s_fresh x = true) by (unfold x; cbn [step s_fresh]; rewrite Kfr; reflexivity).
+    assert (Hz : forall s, zeroish (dims s) (s_se x s)) by (intros s; apply reset_clears; exact Him).
+    set (y0 := fresh dims keep mods mem0 (s_st x)).
+    assert (Hiy : inv mods y0) by (apply inv_fresh; [exact L0 | apply Hi]).
+    unfold fresh_cycle, pass_only.
+    change ([OResp] ++ seed_ops seeds ++ [OSens]) with (OResp :: (seed_ops seeds ++ [OSens])).
+    rewrite run_cons, !run_app.
+    set (y1 := step keep mods y0 OResp).
+    assert (Hiy1 : inv mods y1) by (apply inv_step; [exact Hwf | exact Hs | exact Hiy | exact I]).
+    destruct (run_seed_ops mods seeds x) as [A1 [B1 [C1 D1]]].
+    destruct (run_seed_ops mods seeds y1) as [A2 [B2 [C2 D2]]].
+    cbn [run fold_left step s_st s_se s_mem s_fresh].
+    fold (run keep mods (seed_ops seeds) x). fold (run keep mods (seed_ops seeds) y1).
+    rewrite A1, A2, B1, B2, D1, D2.
+    (* states: the states of the history ARE the response of the current inputs *)
+    assert (S : forall s, s_st x s = s_st y1 s).
+    { intros s. rewrite Xst. unfold xr, y1. cbn [step s_st].
+      apply resp_states_inputs_only.
+      - exact Hwf.
+      - apply Forall_impl with (2 := Hm). apply memless_resp_pure.
+      - exact Hs.
+      - apply Hi'.
+      - exact L0.
+      - exact (proj1 (proj2 Hi')).
+      - intros z Hz'. unfold y0, fresh. cbn [s_st]. pose proof Hz' as Hz2. apply mem_false in Hz'. rewrite Hz'.
+        rewrite Xst. unfold xr. cbn [step s_st]. rewrite resp_all_unwritten by exact Hz2. reflexivity. }
+    split; [exact S|].
+    assert (Dx : forall s, sdims (s_st x) s = dims s).
+    { intros s. destruct Hi as [_ [_ [I2 _]]]. apply I2. exact Xfr. }
+    assert (Dy : forall s, sdims (s_st y1) s = dims s).
+    { intros s. unfold sdims. rewrite <- S. apply Dx. }
+    assert (Lx : length (s_mem x) = length mods) by apply Hi.
+    assert (Ly : length (s_mem y1) = length mods) by apply Hiy1.
+    set (P := at_points (s_st x) mods (s_mem x)).
+    set (c1 := seed_env seeds (s_se x)). set (c2 := seed_env seeds (s_se y1)).
+    assert (Ex : forall s, sens_all mods (s_mem x) (s_st x) c1 s = bwd dims P c1 s).
+    { intros s. unfold sens_all. apply bwd_congr; [exact Dx | apply mod_ext_refl | reflexivity]. }
+    assert (Ey : forall s, sens_all mods (s_mem y1) (s_st y1) c2 s = bwd dims P c2 s).
+    { intros s. unfold sens_all. apply bwd_congr; [exact Dy | | reflexivity].
+      apply at_points_ext; auto. }
+    destruct (at_points_shaped (s_st x) mods Dx Hs (s_mem x)) as [PA PZ].
+    assert (W1 : wt_cot dims c1) by (apply seed_env_wt; [exact Hsd | apply Hi]).
+    assert (W2 : wt_cot dims c2) by (apply seed_env_wt; [exact Hsd | apply Hiy1]).
+    assert (R : forall s, rel (c1 s) (c2 s) (dims s)).
+    { apply seed_env_rel. intros s. right. split; [apply Hz|].
+      unfold y1, y0, fresh. cbn [step s_se]. destruct (keep s); [right | left]; reflexivity. }
+    destruct (bwd_rel P PA PZ c1 c2 W1 W2 R) as [RR _].
+    apply ceq_rel. intros s. rewrite Ex, Ey. apply RR.
+  Qed.
+
+  (* ------------------------------------------------------------------ sensitivities that WRITE the memory *)
+  Local Notation smodK := (@smod K M).
+  Local Notation scc := (@Hist.scc K M).
+  Local Notation mods_of := (map (@sm_mod K M)).
+
+  Lemma sens_sweep_snd (mods : list smodK) : forall mems st (c : cenv K),
+    snd (sens_sweep mods mems st c) = sens_all (mods_of mods) mems st c.
+  Proof.
+    unfold sens_all. induction mods as [|h mods IH]; intros [|mu mems] st c; try reflexivity.
+    cbn [sens_sweep map at_points]. rewrite bwd_cons, <- IH. unfold bwd_mod.
+    cbn [at_point m_outs].
+    destruct (skip _ _); reflexivity.
+  Qed.
+
+  Lemma scc_cc (mods : list smodK) specs : Forall2 scc mods specs -> Forall2 cc (mods_of mods) specs.
+  Proof. induction 1 as [|h sp mods specs [Hc _] _ IH]; simpl; constructor; assumption. Qed.
+
+  Lemma sens_sweep_good (mods : list smodK) : forall specs mems st (c : cenv K),
+    Forall2 scc mods specs -> good_all st true (mods_of mods) specs mems ->
+    good_all st true (mods_of mods) specs (fst (sens_sweep mods mems st c)).
+  Proof.
+    induction mods as [|h mods IH]; intros specs mems st c Hcc Hg.
+    - inversion Hcc; subst. destruct mems; [exact Hg | contradiction].
+    - inversion Hcc as [|? sp ? specs' [Hc Hafter] Hcc']; subst.
+      destruct mems as [|mu mems]; [contradiction|].
+      cbn [map good_all] in Hg. destruct Hg as [[last [G F]] Hg].
+      destruct (F eq_refl) as [El Eo].
+      cbn [sens_sweep].
+      destruct (skip _ _); cbn [fst map good_all].
+      + split; [|apply IH; assumption]. exists last. split; [exact G | intros _; split; assumption].
+      + split; [|apply IH; assumption]. exists last. split; [|intros _; split; assumption].
+        subst last. rewrite Eo. apply Hafter. exact G.
+  Qed.
+
+  Lemma sens_sweep_len (mods : list smodK) : forall mems st (c : cenv K),
+    length (fst (sens_sweep mods mems st c)) = length mems.
+  Proof.
+    induction mods as [|h mods IH]; intros [|mu mems] st c; try reflexivity.
+    cbn [sens_sweep]. destruct (skip _ _); cbn [fst length]; rewrite IH; reflexivity.
+  Qed.
+
+  Lemma sim_step_s (mods : list smodK) specs x p o :
+    hwf (mods_of mods) = true -> Forall h_shaped (pures (mods_of mods) specs) -> Forall2 scc mods specs ->
+    sim (mods_of mods) specs x p ->
+    (o = OSens -> s_fresh x = true) -> (forall s v, o = OSet s v -> length v = dims s) ->
+    sim (mods_of mods) specs (step_s keep mods x o) (step keep (pures (mods_of mods) specs) p o).
+  Proof.
+    intros Hwf Hs Hcc Hsim Hf Hv.
+    pose proof (sim_step (mods_of mods) specs x p o Hwf Hs (scc_cc mods specs Hcc) Hsim Hf Hv) as St.
+    destruct o as [s v| |s w| |]; try exact St.
+    destruct St as [T1 [T2 [T3 [T4 [T5 T6]]]]]. destruct Hsim as [S1 [S2 [S3 [S4 [S5 S6]]]]].
+    unfold sim. cbn [step_s step s_st s_se s_mem s_fresh] in *.
+    split; [exact T1|]. split; [|split; [exact T3|split; [exact T4|split; [|exact T6]]]].
+    - intros s. rewrite sens_sweep_snd. apply T2.
+    - rewrite (Hf eq_refl) in *. apply sens_sweep_good; assumption.
+  Qed.
+
+  Lemma run_s_cons (mods : list smodK) o ops x : run_s keep mods (o :: ops) x = run_s keep mods ops (step_s keep mods x o).
+  Proof. reflexivity. Qed.
+  Lemma run_s_app (mods : list smodK) a b x : run_s keep mods (a ++ b) x = run_s keep mods b (run_s keep mods a x).
+  Proof. unfold run_s. apply fold_left_app. Qed.
+
+  Lemma step_s_fresh (mods : list smodK) x o : s_fresh (step_s keep mods x o) = s_fresh (step keep (mods_of mods) x o).
+  Proof. destruct o; reflexivity. Qed.
+
+  Theorem sens_cache_network_behaves_pure (mods : list smodK) specs :
+    hwf (mods_of mods) = true -> Forall h_shaped (pures (mods_of mods) specs) -> Forall2 scc mods specs ->
+    forall ops x p, sim (mods_of mods) specs x p -> proto_ok (s_fresh x) ops ->
+    sim (mods_of mods) specs (run_s keep mods ops x) (run keep (pures (mods_of mods) specs) ops p).
+  Proof.
+    intros Hwf Hs Hcc. induction ops as [|o ops IH]; intros x p Hsim Hf; [exact Hsim|].
+    rewrite run_s_cons, run_cons. apply IH.
+    - apply sim_step_s; auto.
+      + intros ->. simpl in Hf. tauto.
+      + intros s v ->. simpl in Hf. tauto.
+    - rewrite step_s_fresh. destruct o; cbn [proto_ok step s_fresh] in *; tauto.
+  Qed.
+
+  Lemma admissible_run_sim_s (mods : list smodK) specs : hwf (mods_of mods) = true ->
+    Forall h_shaped (pures (mods_of mods) specs) -> Forall2 scc mods specs ->
+    forall ops x p, sim (mods_of mods) specs x p -> admissible_run_s keep mods ops x ->
+    proto_ok (s_fresh x) ops /\ admissible_run keep (pures (mods_of mods) specs) ops p.
+  Proof.
+    intros Hwf Hs Hcc. induction ops as [|o ops IH]; intros x p Hsim Ha; [split; exact I|].
+    destruct Ha as [A B].
+    assert (Hf : o = OSens -> s_fresh x = true) by (intros ->; exact A).
+    assert (Hv : forall s v, o = OSet s v -> length v = dims s).
+    { intros s v ->. destruct A as [Hw Hl]. rewrite Hl. destruct Hsim as [_ [_ [_ [_ [_ S6]]]]]. apply S6. exact Hw. }
+    destruct (IH (step_s keep mods x o) (step keep (pures (mods_of mods) specs) p o)
+                 (sim_step_s mods specs x p o Hwf Hs Hcc Hsim Hf Hv) B) as [P Q].
+    split; [|split; [eapply admissible_sim; [apply scc_cc; exact Hcc | exact Hsim | exact A] | exact Q]].
+    rewrite step_s_fresh in P.
+    destruct o as [s v| |s w| |]; cbn [proto_ok step s_fresh] in *; auto.
+  Qed.
+
+  Lemma admissible_run_s_app (mods : list smodK) a : forall b x,
+    admissible_run_s keep mods (a ++ b) x <->
+    admissible_run_s keep mods a x /\ admissible_run_s keep mods b (run_s keep mods a x).
+  Proof.
+    induction a as [|o a IH]; intros b x; simpl; [tauto|]. rewrite IH. tauto.
+  Qed.
+
+  (* networks of modules whose sensitivity writes a cache-correct memory are history independent *)
+  Theorem sens_cache_history_independent (mods : list smodK) specs (inputs0 : tenv K) hist sets seeds :
+    hwf (mods_of mods) = true -> Forall2 scc mods specs -> Forall h_shaped (pures (mods_of mods) specs) ->
+    (forall s, ~ In s (h_written (mods_of mods)) -> length (inputs0 s) = dims s) ->
+    only_sets sets -> seeds_shaped seeds ->
+    admissible_run_s keep mods (hist ++ [OReset] ++ sets) (fresh dims keep (mods_of mods) (map c_mu0 specs) inputs0) ->
+    let xh := run_s keep mods (hist ++ [OReset] ++ sets) (fresh dims keep (mods_of mods) (map c_mu0 specs) inputs0) in
+    let xf := run_s keep mods (fresh_cycle seeds) xh in
+    let yf := run_s keep mods (fresh_cycle seeds) (fresh dims keep (mods_of mods) (map c_mu0 specs) (s_st xh)) in
+    (forall s, s_st xf s = s_st yf s) /\ ceq dims (s_se xf) (s_se yf).
+  Proof.
+    intros Hwf Hscc Hsp Hin Hsets Hsd Hadm. cbv zeta.
+    pose proof (scc_cc mods specs Hscc) as Hcc.
+    pose proof (cc_length _ _ Hcc) as L.
+    set (H := mods_of mods) in *.
+    set (P := pures H specs). set (mem0 := map c_mu0 specs).
+    set (ops := hist ++ [OReset] ++ sets).
+    assert (Lm : length mem0 = length H) by (unfold mem0; rewrite map_length; exact L).
+    assert (LP : length mem0 = length P) by (unfold P; rewrite pures_length; assumption).
+    set (x0 := fresh dims keep H mem0 inputs0). set (p0 := fresh dims keep P mem0 inputs0).
+    assert (S0 : sim H specs x0 p0) by (apply sim_fresh; auto).
+    destruct (admissible_run_sim_s mods specs Hwf Hsp Hscc ops x0 p0 S0 Hadm) as [Pr AdmP].
+    assert (Sh : sim H specs (run_s keep mods ops x0) (run keep P ops p0)).
+    { apply sens_cache_network_behaves_pure; auto. }
+    set (xh := run_s keep mods ops x0) in *. set (ph := run keep P ops p0) in *.
+    assert (Sf : sim H specs (run_s keep mods (fresh_cycle seeds) xh) (run keep P (fresh_cycle seeds) ph)).
+    { apply sens_cache_network_behaves_pure; auto. apply proto_ok_cycle. }
+    assert (Sy : sim H specs (run_s keep mods (fresh_cycle seeds) (fresh dims keep H mem0 (s_st xh)))
+                             (run keep P (fresh_cycle seeds) (fresh dims keep P mem0 (s_st ph)))).
+    { apply sens_cache_network_behaves_pure; auto; [|apply proto_ok_cycle]. apply sim_fresh; auto; apply Sh. }
+    assert (HP : hwf P = true) by (unfold hwf, P; rewrite pures_shell by exact L; exact Hwf).
+    assert (HinP : forall s, ~ In s (h_written P) -> length (inputs0 s) = dims s).
+    { unfold P. rewrite pures_written by exact L. exact Hin. }
+    destruct (history_independent P mem0 inputs0 hist sets seeds HP Hsp (pures_memless H specs) LP HinP Hsets Hsd AdmP)
+      as [A B].
+    fold ops p0 ph in A, B.
+    destruct Sf as [F1 [F2 _]]. destruct Sy as [Y1 [Y2 _]].
+    split.
+    - intros s. rewrite F1, Y1. apply A.
+    - intros s. rewrite F2, Y2. apply B.
+  Qed.
+
+  Lemma proto_ok_pass seeds : proto_ok true (pass_only seeds).
+  Proof.
+    unfold pass_only. induction seeds as [|sw seeds IH]; [simpl; auto | exact IH].
+  Qed.
+
+  Lemma proto_ok_app a : forall b fr, proto_ok fr (a ++ b) ->
+    proto_ok fr a.
+  Proof.
+    induction a as [|o a IH]; intros b fr Hp; [exact I|].
+    destruct o; cbn [app proto_ok] in *; try (destruct Hp as [Hq Hp]; split; [exact Hq|]); eapply IH; eassumption.
+  Qed.
+
+  (* ... and so is a FURTHER pass on the same response: after any history, response(); then any number of seed /
+     sensitivity() / reset() calls; reset(); seeds; sensitivity() -- without a new response() -- leaves what a freshly
+     constructed network leaves after response(); seeds; sensitivity() *)
+  Theorem sens_cache_further_pass_independent (mods : list smodK) specs (inputs0 : tenv K) hist mid seeds :
+    hwf (mods_of mods) = true -> Forall2 scc mods specs -> Forall h_shaped (pures (mods_of mods) specs) ->
+    (forall s, ~ In s (h_written (mods_of mods)) -> length (inputs0 s) = dims s) ->
+    forallb pass_op mid = true -> seeds_shaped seeds ->
+    admissible_run_s keep mods (hist ++ [OResp] ++ mid ++ [OReset])
+                     (fresh dims keep (mods_of mods) (map c_mu0 specs) inputs0) ->
+    let xh := run_s keep mods (hist ++ [OResp] ++ mid ++ [OReset])
+                    (fresh dims keep (mods_of mods) (map c_mu0 specs) inputs0) in
+    let xf := run_s keep mods (pass_only seeds) xh in
+    let yf := run_s keep mods (fresh_cycle seeds) (fresh dims keep (mods_of mods) (map c_mu0 specs) (s_st xh)) in
+    (forall s, s_st xf s = s_st yf s) /\ ceq dims (s_se xf) (s_se yf).
+  Proof.
+    intros Hwf Hscc Hsp Hin Hmid Hsd Hadm. cbv zeta.
+    pose proof (scc_cc mods specs Hscc) as Hcc.
+    pose proof (cc_length _ _ Hcc) as L.
+    set (H := mods_of mods) in *.
+    set (P := pures H specs). set (mem0 := map c_mu0 specs).
+    set (ops := hist ++ [OResp] ++ mid ++ [OReset]).
+    assert (Lm : length mem0 = length H) by (unfold mem0; rewrite map_length; exact L).
+    assert (LP : length mem0 = length P) by (unfold P; rewrite pures_length; assumption).
+    set (x0 := fresh dims keep H mem0 inputs0). set (p0 := fresh dims keep P mem0 inputs0).
+    assert (S0 : sim H specs x0 p0) by (apply sim_fresh; auto).
+    destruct (admissible_run_sim_s mods specs Hwf Hsp Hscc ops x0 p0 S0 Hadm) as [Pr AdmP].
+    assert (Sh : sim H specs (run_s keep mods ops x0) (run keep P ops p0)).
+    { apply sens_cache_network_behaves_pure; auto. }
+    set (xh := run_s keep mods ops x0) in *. set (ph := run keep P ops p0) in *.
+    assert (HP : hwf P = true) by (unfold hwf, P; rewrite pures_shell by exact L; exact Hwf).
+    assert (HinP : forall s, ~ In s (h_written P) -> length (inputs0 s) = dims s).
+    { unfold P. rewrite pures_written by exact L. exact Hin. }
+    (* the pure network: split the history at the response *)
+    unfold ops in AdmP. apply admissible_run_app in AdmP as [AdmH AdmR].
+    change ([OResp] ++ mid ++ [OReset]) with (OResp :: (mid ++ [OReset])) in AdmR.
+    destruct AdmR as [_ AdmR]. apply admissible_run_app in AdmR as [AdmM _].
+    set (p' := run keep P hist p0) in *.
+    assert (Hip' : inv P p') by (apply inv_run; [exact HP | exact Hsp | apply inv_fresh; assumption | exact AdmH]).
+    assert (Eph : ph = step keep P (run keep P mid (step keep P p' OResp)) OReset).
+    { unfold ph, ops. rewrite run_app. fold p'.
+      change ([OResp] ++ mid ++ [OReset]) with (OResp :: (mid ++ [OReset])). rewrite run_cons, run_app. reflexivity. }
+    assert (Fr : s_fresh ph = true).
+    { rewrite Eph. destruct (pass_ops_keep P mid Hmid (step keep P p' OResp)) as [_ [_ C]].
+      change (s_fresh (run keep P mid (step keep P p' OResp)) = true). rewrite C. reflexivity. }
+    assert (Frx : s_fresh xh = true) by (destruct Sh as [_ [_ [E _]]]; rewrite E; exact Fr).
+    assert (Sf : sim H specs (run_s keep mods (pass_only seeds) xh) (run keep P (pass_only seeds) ph)).
+    { apply sens_cache_network_behaves_pure; auto. rewrite Frx. apply proto_ok_pass. }
+    assert (Sy : sim H specs (run_s keep mods (fresh_cycle seeds) (fresh dims keep H mem0 (s_st xh)))
+                             (run keep P (fresh_cycle seeds) (fresh dims keep P mem0 (s_st ph)))).
+    { apply sens_cache_network_behaves_pure; auto; [|apply proto_ok_cycle]. apply sim_fresh; auto; apply Sh. }
+    destruct (pass_from_clean P mem0 p' mid seeds HP Hsp (pures_memless H specs) LP Hip' Hmid AdmM Hsd) as [A B].
+    rewrite <- Eph in A, B.
+    destruct Sf as [F1 [F2 _]]. destruct Sy as [Y1 [Y2 _]].
+    split.
+    - intros s. rewrite F1, Y1. apply A.
+    - intros s. rewrite F2, Y2. apply B.
+  Qed.
+
+  (* an ordinary cache-correct module is one whose sensitivity writes nothing *)
+  Lemma lift_scc (h : hmodK) sp : cc h sp -> scc (lift_s h) sp.
+  Proof. intros Hc. split; [exact Hc|]. intros mu xs ws G. exact G. Qed.
 End HistProofs.
 
 (* ====================================================================================================
@@ -1337,6 +1637,107 @@ Section EigenSolveProofs.
     - intros mu xs ws _. reflexivity.
   Qed.
 End EigenSolveProofs.
+
+Section CholeskyFallbackProofs.
+  Context {K : Type} `{NK : Num K}.
+  Variable FU FL : Type.
+  Variable chol : list K -> option FU.
+  Variable ldl : list K -> FL.
+  Variable usolve : FU -> bool -> list K -> list K.
+  Variable lsolve : FL -> bool -> list K -> list K.
+  Variable unfactorised : list K.
+  Variable outer_neg : list K -> list K -> list K.
+
+  (* after update(A) the solver answers for A, whatever it held before (a stale U or a stale backup factorisation) *)
+  Lemma chol_update_answers s A tr b :
+    chol_solve FU FL usolve lsolve unfactorised (chol_update FU FL chol ldl s A) tr b
+    = chol_fresh_solve FU FL chol ldl usolve lsolve A tr b.
+  Proof.
+    unfold chol_update, chol_fresh_solve, chol_solve. destruct (chol A) as [U|]; reflexivity.
+  Qed.
+
+  Theorem chol_linsolve_cache_correct ins out :
+    cache_correct (chol_linsolve_h FU FL chol ldl usolve lsolve unfactorised outer_neg ins out)
+                  (cs_init FU FL, None)
+                  (chol_good FU FL chol ldl usolve lsolve unfactorised)
+                  (chol_f FU FL chol ldl usolve lsolve)
+                  (chol_g FU FL chol ldl usolve lsolve outer_neg).
+  Proof.
+    split; [exact I|]. split.
+    - intros mu last xs _. cbn [chol_linsolve_h h_resp fst snd chol_good chol_f].
+      rewrite chol_update_answers. split; [|reflexivity].
+      split; [intros tr b; apply chol_update_answers | reflexivity].
+    - intros mu xs ws [G1 G2]. cbn [chol_linsolve_h h_sens chol_g chol_f nth] in *.
+      rewrite G1, G2. reflexivity.
+  Qed.
+
+  (* the solver-level statement: the k-th pair of answers of ONE solver object fed A_1, A_2, ... is that of a fresh
+     solver that has only seen A_k *)
+  Theorem chol_answers_fresh As : forall s b,
+    chol_answers FU FL chol ldl usolve lsolve unfactorised s As b
+    = flat_map (fun A => [chol_fresh_solve FU FL chol ldl usolve lsolve A false b;
+                          chol_fresh_solve FU FL chol ldl usolve lsolve A true b]) As.
+  Proof.
+    induction As as [|A As IH]; intros s b; [reflexivity|].
+    cbn [chol_answers flat_map app]. rewrite !chol_update_answers, IH. reflexivity.
+  Qed.
+End CholeskyFallbackProofs.
+
+Section EigenAdjointProofs.
+  Context {K : Type} `{NK : Num K}.
+  Variable FA : Type.
+  Variable afact : list K -> FA.
+  Variable F : Type.
+  Variable factorise : list K -> F.
+  Variable shifted : list (list K) -> list K.
+  Variable sigma_nonzero : bool.
+  Variable eigs : F -> list (list K) -> list (list K).
+  Variable nmodes : list (list K) -> nat.
+  Variable modes_of : list (list K) -> list (list K) -> list (list K) -> list (nat * bool * list K).
+  Variable eig_adj_with : list (list K) -> list (list K) -> list (list K) -> list (nat * option FA) -> list (option (list K)).
+
+  (* while the flag is set every visited mode is refactorised: the loop reads current factorisations only and
+     leaves the flag set -- whatever the solvers held before (nothing, or factorisations of earlier responses) *)
+  Lemma adj_visit_flag_set n sv i Z :
+    adj_visit FA afact n (true, sv) i Z
+    = ((true, Some (put_nth i (Some (Some (afact Z))) match sv with Some l => l | None => repeat None n end)),
+       Some (afact Z)).
+  Proof. reflexivity. Qed.
+
+  Lemma adj_loop_flag_set n modes : forall sv,
+    fst (fst (adj_loop FA afact n (true, sv) modes)) = true /\
+    snd (adj_loop FA afact n (true, sv) modes) = adj_current FA afact modes.
+  Proof.
+    induction modes as [|[[i sd] Z] modes IH]; intros sv; [split; reflexivity|].
+    cbn [adj_loop adj_current flat_map fst snd]. destruct sd.
+    - rewrite adj_visit_flag_set. cbn [fst snd].
+      destruct (IH (Some (put_nth i (Some (Some (afact Z))) match sv with Some l => l | None => repeat None n end)))
+        as [A B].
+      split; [exact A|]. cbn [app]. f_equal. exact B.
+    - destruct (IH sv) as [A B]. split; [exact A | exact B].
+  Qed.
+
+  Theorem eigadj_scc ins outs :
+    Hist.scc (eigadj_s FA afact F factorise shifted sigma_nonzero eigs nmodes modes_of eig_adj_with ins outs)
+             {| c_mu0 := ((None, false), amem0 FA);
+                c_good := eigadj_good FA F factorise shifted;
+                c_f := eigadj_f F factorise shifted eigs;
+                c_g := eigadj_g FA afact modes_of eig_adj_with |}.
+  Proof.
+    split; [split; [split; reflexivity|split]|].
+    - intros [mu [nd sv]] last xs [G Gn]. cbn [fst snd] in *.
+      destruct (eigensolve_cache_correct F factorise shifted sigma_nonzero eigs (fun _ _ _ => []) ins outs)
+        as [_ [Hr _]].
+      destruct (Hr mu last xs G) as [G' Ef].
+      cbn [eigadj_s sm_mod h_resp c_good c_f eigadj_good fst snd]. split; [split; [exact G' | reflexivity] | exact Ef].
+    - intros [mu [nd sv]] xs ws [G Gn]. cbn [fst snd] in *. subst nd.
+      cbn [eigadj_s sm_mod h_sens c_g c_f eigadj_g snd].
+      rewrite (proj2 (adj_loop_flag_set _ _ sv)). reflexivity.
+    - intros [mu [nd sv]] xs ws [G Gn]. cbn [fst snd] in *. subst nd.
+      cbn [eigadj_s sm_after c_good eigadj_good fst snd]. split; [exact G|].
+      apply (proj1 (adj_loop_flag_set _ _ sv)).
+  Qed.
+End EigenAdjointProofs.
 
 (* ====================================================================================================
    The executable test modules meet the hypotheses of the theorems (non-vacuity) *)
@@ -1585,6 +1986,12 @@ Proof.
 Qed.
 
 (* the class flag cached from the first (symmetric) matrix makes the second (non-symmetric) solve wrong *)
+Lemma memories_nonvacuous :
+  tag_adj_trace 3 [None; Some [true; false; false]; None; Some [false; true; true]; Some [true; false; false]]
+  = [[Some [1; 0]; None; None]; [Some [1; 0]; Some [2; 1]; Some [2; 2]]; [Some [2; 0]; Some [2; 1]; Some [2; 2]]]%Z /\
+  tag_answers [[1; 1]; [2; 0]; [3; 1]]%Z = [[1]; [1]; [2]; [2]; [3]; [3]]%Z.
+Proof. split; vm_compute; reflexivity. Qed.
+
 Lemma class_change_counterexample :
   s_st (run (fun _ => false) [flagged_linsolve_h] cls_hist cls_start) 2 = [3; 1]%Z /\
   s_st (run (fun _ => false) [flagged_linsolve_h] cls_fresh cls_start) 2 = [1; 1]%Z.
